@@ -64,6 +64,9 @@ func TestC05(t *testing.T) {
 						apply(Op{Kind: "regnode", ID: ids[i], NT: nt})
 					}
 					op := Op{Kind: "regpipe", Type: "t", Pid: "p", IDs: ids}
+					// the call under test comes with no option, or with a (valid) policy option: what the definition
+					// lacks is not made up for by how the call is decorated
+					op.Policy = []string{"", "AllowOverwrite", "DenyOverwrite"}[(idx+len(v)+len(pv))%3]
 					switch v {
 					case "emptyid":
 						op.IDs = append([]string(nil), ids...)
